@@ -25,3 +25,31 @@ PROPS['C12'] = dict(
                'A-delim: Call(n>0) is preceded by ArgumentDelimiter (emitted by Compiler::call, outside reach)',
                'A-raw: locals/boxes/captures/module symbols modelled as a store separate from the operand stack'],
 )
+
+def _findings_variant(only):
+  return dict(unit='peephole', variant='findings', only=only)
+_FINDINGS_VARIANT = _findings_variant(['apply_stack_effects', 'spec:handler_depth_is_live_depth', 'spec:max_slots_covers_live_depth'])
+
+PROPS['C06'] = dict(
+  level='proof',
+  verus=[dict(unit='peephole', min_functions=4), dict(unit='bytecode', min_functions=10), _FINDINGS_VARIANT],
+  not_decided=['O-06.9 constants/locals/captures/cache indices in range: carried by Compiler methods outside reach',
+               'A-shape: labels unique and dense, jump direction (compiler output shape)',
+               'A-fiber: push_frame/ensure_stack reserve max_slots above the arguments (raw-pointer code, unverified)',
+               'eff table vs the real op_* handlers: see the ops unit (C01/C16) for the handlers it covers'],
+)
+PROPS['C15'] = dict(
+  level='proof',
+  verus=[dict(unit='peephole', min_functions=18), dict(unit='bytecode', min_functions=5), _findings_variant(['apply_stack_effects'])],
+  not_decided=['scanner, parser, resolver and Compiler totality; REPL continuation; only the compiler back half (peephole pass, label resolution, encoder) is under contract'],
+)
+PROPS['C18'] = dict(
+  level='proof',
+  verus=[dict(unit='bytecode', min_functions=10), dict(unit='peephole', min_functions=8), dict(unit='lines', min_functions=3)],
+  not_decided=['traceback/backtrace assembly from frames, exit-status mapping in Vm::run, exit(n); Compiler::emit_byte line + 1'],
+)
+PROPS['C04'] = dict(
+  level='proof',
+  verus=[dict(unit='peephole', min_functions=2), dict(unit='bytecode', min_functions=1), _findings_variant(['spec:handler_depth_is_live_depth'])],
+  not_decided=['PopHandler emission on every exit path (compiler), Fiber::stack_unwind/finish_unwind (raw frames), native-callback boundary'],
+)
